@@ -1,6 +1,6 @@
 """Engine C: deadline plumbing and probe placement (MIR)."""
 from .core import RuleResult
-from .facts import term_str, targs
+from .facts import term_str, targs, norm_path
 from .callgraph import peel, ty_head
 from . import effects
 
@@ -446,7 +446,7 @@ PROBE_TABLE = {
     "algorithms::lcs::make_table": "row loop x column loop: O(NM)",
 }
 PROBE_EXEMPT = {
-    "<algorithms::patience::Patience<'old, 'new, 'd, Old, New, D> as algorithms::hook::DiffHook>::equal":
+    "<algorithms::patience::Patience<Old, New, D> as algorithms::hook::DiffHook>::equal":
         "outer loop over anchors, inner loop advances the cursors monotonically: amortised linear; the quadratic part is "
         "the inner myers call, which carries the deadline (C1)",
     "algorithms::lcs::diff_deadline": "single linear walk over the table",
@@ -482,9 +482,9 @@ def rule_C3(prog):
             depth2 = bool(n["inner"]) or callee_loops
             if not depth2:
                 continue
-            if path in PROBE_EXEMPT:
+            if norm_path(path) in PROBE_EXEMPT:
                 r.count("exempt_nests")
-                r.samples.append("%s: loop at bb%d exempt: %s" % (path, n["header"], PROBE_EXEMPT[path]))
+                r.samples.append("%s: loop at bb%d exempt: %s" % (path, n["header"], PROBE_EXEMPT[norm_path(path)]))
                 continue
             r.instances += 1
             seen_tab.add(path)
@@ -534,23 +534,25 @@ def rule_C3(prog):
                 path, n["header"], len(body), len(cmp_blocks), len(n["inner"]),
                 "probe at bb%d, true edge -> bb%d leaves the nest" % good if ok else (problems or ["no probe in the loop"])))
             if not ok:
-                if path in PROBE_TABLE:
-                    r.find(path, "unprobed-nest", "%s: %s -- %s" % (path, PROBE_TABLE[path], "; ".join(problems) or
+                if norm_path(path) in PROBE_TABLE:
+                    r.find(path, "unprobed-nest", "%s: %s -- %s" % (path, PROBE_TABLE[norm_path(path)], "; ".join(problems) or
                                                                    "no deadline_exceeded call in the loop"),
                            file=fn.file, line=m.blocks[n["header"]]["term"].get("line", fn.line))
                 else:
                     r.find(path, "unreviewed-nest", "%s contains a depth>=2 comparison loop nest that is neither probed "
                            "nor listed as exempt (%s)" % (path, "; ".join(problems) or "no probe"),
                            file=fn.file, line=fn.line)
+    seen_norm = {norm_path(x) for x in seen_tab}
     for path in PROBE_TABLE:
-        if prog.fn(path) is None:
+        cands = [f for f in prog.fn_list if norm_path(f.path) == path]
+        if not cands:
             r.find(path, "table-anchor-lost", "probe table entry %s not found in the crate" % path)
-        elif path not in seen_tab:
+        elif path not in seen_norm:
             r.instances += 1
             r.ob(False, "%s: no depth>=2 comparison nest recognised" % path)
             r.find(path, "nest-not-recognised", "%s is listed as super-linear but no comparison loop nest was recognised "
                    "(deadline parameter removed, or loop restructured beyond the rule)" % path,
-                   file=prog.fn(path).file, line=prog.fn(path).line)
+                   file=cands[0].file, line=cands[0].line)
     return r
 
 
